@@ -96,10 +96,28 @@ theorem finalizeStandard_av_ok (w : Writer) (width height : Nat) (md : Option Me
     rw [if_neg h1]
     split at hok
     · simp at hok
-    · next h2 =>
-      rw [if_neg h2]
-      refine ⟨Nat.not_lt.mp h1, ?_⟩
-      rfl
+    · next h1' =>
+      rw [if_neg h1']
+      split at hok
+      · simp at hok
+      · next h2 =>
+        rw [if_neg h2]
+        refine ⟨Nat.not_lt.mp h1, ?_⟩
+        rfl
+
+/-- a successful standard A/V finalize also passed the chunk-offset guard -/
+theorem finalizeStandard_av_ok_offset (w : Writer) (width height : Nat) (md : Option Metadata) (vc : VideoConfig)
+    (tr : AudioTrack) (ha : w.audio = some tr)
+    (hok : (finalizeStandard w width height md vc).res = .ok) :
+    ftypLen + 8 + ((w.vsRev.reverse.map (·.data.length)).sum + (w.asRev.reverse.map (·.data.length)).sum)
+      ≤ u32Max := by
+  unfold finalizeStandard at hok
+  simp only [ha] at hok
+  split at hok
+  · simp at hok
+  · split at hok
+    · simp at hok
+    · next h1' => exact Nat.not_lt.mp h1'
 
 theorem finalizeStandard_video_ok (w : Writer) (width height : Nat) (md : Option Metadata) (vc : VideoConfig)
     (ha : w.audio = none)
